@@ -145,7 +145,9 @@ def boundary_tokens():
     for n in (LMAX - 1, LMAX, LMAX + 1, 2 ** 64 - 1, 2 ** 64, 2 ** 64 + 5, 2 ** 32, 2 ** 31 - 1):
         out += [str(n), '+' + str(n), '-' + str(n), hex(n), '0' + oct(n)[2:], '0b' + bin(n)[2:]]
     out += [str(LMIN), str(LMIN - 1), str(LMIN + 1)]
-    out += ['9' * 400, '-' + '9' * 400, '0x' + 'f' * 100, '0' + '7' * 200, '0b' + '1' * 64, '0b' + '1' * 63, '1' + '0' * 308, '1' + '0' * 309,
+    out += ['0b' + '0' * 70 + '1', '0b' + '0' * 64 + '101', '0b' + '0' * 200, '0b' + '0' * 2 + '1' * 63, '0b' + '0' * 2 + '1' * 64, '0x' + '0' * 40 + 'ff', '0' * 50 + '17', '0' * 70,
+            '1.' + '0' * 80, '0.' + '0' * 70 + '1', '1' + '0' * 70 + '.5', '0' * 65 + '1.5', '1e' + '0' * 70 + '2', '-' + '0' * 66 + '.25',
+            '9' * 400, '-' + '9' * 400, '0x' + 'f' * 100, '0' + '7' * 200, '0b' + '1' * 64, '0b' + '1' * 63, '1' + '0' * 308, '1' + '0' * 309,
             '1.7976931348623157e308', '1.7976931348623158e308', '1.7976931348623159e308', '1.8e308', '-1.8e308', '1e308', '1e309',
             '-1e309', '1e400', '0.' + '0' * 400 + '1', '1e-400', '4.9e-324', '2.2250738585072014e-308', '2.2250738585072011e-308',
             '0.1', '.5', '5.', '5.e3', '.e3', '.', 'e5', '1e', '1e+', '1e+5', '1E5', '1e5.0', '1..0', '1.0.0', '--1', '+-1', '1-', '1+',
